@@ -1,14 +1,709 @@
-// Package convsim is engine B (generated converters under a seeded scheduler and failing callees).
+// Package convsim is engine B: generated converters under a seeded cooperative scheduler
+// (C04) and under value-keyed failing custom functions (C07). The unmodified goverter,
+// built from /repo's working tree, generates converters for seeded worlds; the emitted code
+// gets the map-order seam (and yields for C04); a test binary per world then runs
+// thousands of simulated executions driven by pgregory.net/rapid as the only choice source.
 package convsim
 
 import (
-	"errors"
+	"bytes"
+	"embed"
+	"encoding/json"
+	"fmt"
+	"os"
+	"os/exec"
+	"path/filepath"
+	"regexp"
+	"sort"
+	"strings"
+	"sync"
+	"time"
 
 	"verif/internal/gensim"
+	vnode "verif/internal/node"
+	"verif/internal/rt"
+	"verif/internal/seam"
 )
 
-func Check(id, tier string, seed uint64, repo, vd string) (*gensim.Outcome, error) {
-	return nil, errors.New("todo")
+//go:embed harness/*.go
+var harnessFS embed.FS
+
+type worldResult struct {
+	Seed      uint64
+	Spec      *Spec
+	Rejected  bool   // goverter refused the world (not a violation)
+	RejectMsg string
+	Failed    bool
+	Output    string
+	FailFile  string
+	Stats     map[string]any
+	BuildErr  error
+	Dir       string
+	NoErrOK   bool // generation-time clause checked and held
+	NoErrViol string
 }
 
-func Replay(path, repo, vd string) (int, error) { return 2, errors.New("todo") }
+func goRun(dir string, env []string, name string, args ...string) (string, error) {
+	cmd := exec.Command(name, args...)
+	cmd.Dir = dir
+	cmd.Env = append(vnode.GoEnv(), env...)
+	var out bytes.Buffer
+	cmd.Stdout = &out
+	cmd.Stderr = &out
+	err := cmd.Run()
+	return out.String(), err
+}
+
+func writeFile(p, content string) error {
+	if err := os.MkdirAll(filepath.Dir(p), 0o755); err != nil {
+		return err
+	}
+	return os.WriteFile(p, []byte(content), 0o644)
+}
+
+const perrSource = `package perr
+
+import (
+	"fmt"
+
+	"verifsim"
+)
+
+type Elem = verifsim.WrapElem
+
+type wrapped struct {
+	err   error
+	elems []Elem
+}
+
+func (w *wrapped) Error() string { return fmt.Sprintf("%v at %v", w.err, w.elems) }
+func (w *wrapped) Unwrap() error { return w.err }
+
+func Wrap(err error, elems ...Elem) error {
+	verifsim.RecordWrap(elems)
+	return &wrapped{err: err, elems: elems}
+}
+func Key(k any) Elem      { return Elem{Kind: "key", Value: fmt.Sprintf("%v", k)} }
+func Index(i int) Elem    { return Elem{Kind: "index", Value: fmt.Sprint(i)} }
+func Field(s string) Elem { return Elem{Kind: "field", Value: s} }
+`
+
+// materialise writes the world module (without generated code).
+func materialise(dir string, s *Spec) error {
+	if err := rt.WriteRuntime(filepath.Join(dir, "verifsim")); err != nil {
+		return err
+	}
+	gomod := "module cw\n\ngo 1.23\n\nrequire (\n\tpgregory.net/rapid v1.3.0\n\tverifsim v0.0.0\n)\n\nreplace verifsim => ./verifsim\n"
+	if err := writeFile(filepath.Join(dir, "go.mod"), gomod); err != nil {
+		return err
+	}
+	if err := writeFile(filepath.Join(dir, "w", "types.go"), s.TypesSource()); err != nil {
+		return err
+	}
+	if err := writeFile(filepath.Join(dir, "w", "conv.go"), s.ConverterSource()); err != nil {
+		return err
+	}
+	if s.Wrap == "wrapErrorsUsing" {
+		if err := writeFile(filepath.Join(dir, "w", "perr", "perr.go"), perrSource); err != nil {
+			return err
+		}
+	}
+	ents, _ := harnessFS.ReadDir("harness")
+	for _, e := range ents {
+		if strings.HasSuffix(e.Name(), "_test.go") {
+			continue
+		}
+		b, _ := harnessFS.ReadFile("harness/" + e.Name())
+		src := strings.ReplaceAll(string(b), `"verif/internal/rt/verifsim"`, `"verifsim"`)
+		if err := writeFile(filepath.Join(dir, "harness", e.Name()), src); err != nil {
+			return err
+		}
+	}
+	return writeFile(filepath.Join(dir, "run", "main_test.go"), s.TestSource())
+}
+
+// TestSource renders the per-world test file that registers the generated methods.
+func (s *Spec) TestSource() string {
+	var b strings.Builder
+	b.WriteString("package run\n\nimport (\n\t\"testing\"\n\n\t\"cw/harness\"\n")
+	hasTwin := s.Prop == "C07"
+	switch s.Format {
+	case "variables":
+		b.WriteString("\t\"cw/w\"\n")
+	default:
+		b.WriteString("\tgen \"cw/w/generated\"\n")
+		if hasTwin {
+			b.WriteString("\ttwin \"cw/w/twin\"\n")
+		}
+	}
+	b.WriteString(")\n\nvar world = &harness.World{\n")
+	fmt.Fprintf(&b, "\tSkipCopy: %v,\n\tWrap: %q,\n", s.SkipCopy, s.Wrap)
+	b.WriteString("\tRenames: map[string]map[string]string{\n")
+	for _, id := range sortedIDs(s.Structs) {
+		n := s.Structs[id]
+		var rs []string
+		for _, f := range n.Fields {
+			if f.TName != f.Name {
+				rs = append(rs, fmt.Sprintf("%q: %q", f.Name, f.TName))
+			}
+		}
+		if len(rs) > 0 {
+			fmt.Fprintf(&b, "\t\t\"S%d\": {%s},\n", id, strings.Join(rs, ", "))
+		}
+	}
+	b.WriteString("\t},\n\tLeafFn: map[string]string{\n")
+	for _, id := range sortedIDs(s.Leaves) {
+		fmt.Fprintf(&b, "\t\t\"SLeaf%d\": %q,\n", id, s.Leaves[id].Fn)
+	}
+	b.WriteString("\t},\n}\n\nfunc init() {\n")
+	switch s.Format {
+	case "struct":
+		b.WriteString("\tc := &gen.ConverterImpl{}\n")
+		if hasTwin {
+			b.WriteString("\ttc := &twin.TwinConverterImpl{}\n")
+		}
+	}
+	b.WriteString("\tworld.Methods = []harness.Method{\n")
+	for _, m := range s.methods(false) {
+		var fn, tw string
+		switch s.Format {
+		case "struct":
+			fn, tw = "c."+m.Name, "tc."+m.Name
+		case "function":
+			fn, tw = "gen."+m.Name, "twin.Twin"+m.Name
+		default:
+			fn, tw = "w."+m.Name, "w.Twin"+m.Name
+		}
+		if hasTwin {
+			fmt.Fprintf(&b, "\t\t{Name: %q, Fn: %s, Twin: %s},\n", m.Name, fn, tw)
+		} else {
+			fmt.Fprintf(&b, "\t\t{Name: %q, Fn: %s},\n", m.Name, fn)
+		}
+	}
+	b.WriteString("\t}\n}\n\nfunc TestMain(m *testing.M) { harness.Main(m) }\n\n")
+	if s.Prop == "C04" {
+		b.WriteString("func TestSim(t *testing.T) { harness.RunC04(t, world) }\n")
+	} else {
+		b.WriteString("func TestSim(t *testing.T) { harness.RunC07(t, world) }\n")
+	}
+	return b.String()
+}
+
+// generatedFiles lists the files goverter wrote.
+func generatedFiles(dir string, s *Spec) []string {
+	var out []string
+	for _, p := range []string{"w/generated/generated.go", "w/twin/twin.go", "w/conv.gen.go"} {
+		if _, err := os.Stat(filepath.Join(dir, p)); err == nil {
+			out = append(out, filepath.Join(dir, p))
+		}
+	}
+	return out
+}
+
+type Engine struct {
+	Scratch  string
+	Goverter string
+	Repo     string
+}
+
+// NewEngine builds the unmodified goverter from the repo's working tree.
+func NewEngine(repo string) (*Engine, error) {
+	scratch, err := os.MkdirTemp(vnode.ScratchRoot(), "verif-conv-")
+	if err != nil {
+		return nil, &vnode.BuildError{Msg: err.Error()}
+	}
+	e := &Engine{Scratch: scratch, Repo: repo}
+	src := filepath.Join(scratch, "goverter")
+	if err := vnode.CopyTree(repo, src, map[string]bool{".git": true, "docs": true, "execution": true, "example": true, "scenario": true, ".github": true}); err != nil {
+		e.Close()
+		return nil, &vnode.BuildError{Msg: "copy repo: " + err.Error()}
+	}
+	e.Goverter = filepath.Join(scratch, "goverter-bin")
+	if out, err := goRun(src, nil, "go", "build", "-o", e.Goverter, "./cmd/goverter"); err != nil {
+		e.Close()
+		return nil, &vnode.BuildError{Msg: "build goverter: " + out}
+	}
+	return e, nil
+}
+
+func (e *Engine) Close() {
+	if os.Getenv("VERIF_KEEP") == "" {
+		_ = os.RemoveAll(e.Scratch)
+	}
+}
+
+// BuildWorld materialises, generates, rewrites and compiles one world.
+func (e *Engine) BuildWorld(s *Spec, idx int) (*worldResult, error) {
+	dir := filepath.Join(e.Scratch, fmt.Sprintf("world-%s-%d", s.Prop, idx))
+	res := &worldResult{Seed: s.Seed, Spec: s, Dir: dir}
+	if err := materialise(dir, s); err != nil {
+		return nil, &vnode.BuildError{Msg: err.Error()}
+	}
+	out, err := goRun(dir, nil, e.Goverter, "gen", "./w")
+	if err != nil {
+		if ee, ok := err.(*exec.ExitError); ok && ee.ExitCode() == 1 {
+			res.Rejected = true
+			res.RejectMsg = out
+			return res, nil
+		}
+		return nil, &vnode.BuildError{Msg: "goverter run: " + err.Error() + "\n" + out}
+	}
+	files := generatedFiles(dir, s)
+	if len(files) == 0 {
+		return nil, &vnode.BuildError{Msg: "goverter wrote no files in " + dir}
+	}
+	only := map[string]bool{}
+	for _, f := range files {
+		only[f] = true
+	}
+	if _, err := seam.Rewrite(seam.Options{Dir: dir, Patterns: []string{"./w/..."}, Env: vnode.GoEnv(), FirstSite: 1000, Yields: s.Prop == "C04", OnlyFiles: only, RelTo: dir}); err != nil {
+		// generated code that does not compile is C01's subject: skip the world
+		res.Rejected = true
+		res.RejectMsg = "generated code does not load: " + err.Error()
+		return res, nil
+	}
+	if out, err := goRun(dir, nil, "go", "test", "-c", "-o", filepath.Join(dir, "sim.test"), "./run"); err != nil {
+		res.Rejected = true
+		res.RejectMsg = "harness build failed: " + out
+		res.BuildErr = fmt.Errorf("%s", out)
+		return res, nil
+	}
+	return res, nil
+}
+
+var failFileRe = regexp.MustCompile(`-rapid\.failfile="([^"]+)"`)
+
+// RunWorld executes the world's test binary.
+func (e *Engine) RunWorld(res *worldResult, checks int, seed uint64, failfile string) error {
+	stats := filepath.Join(res.Dir, "stats.json")
+	args := []string{"-test.run", "TestSim", "-test.timeout", "30m", fmt.Sprintf("-rapid.checks=%d", checks), fmt.Sprintf("-rapid.seed=%d", seed%1000000007+1), "-rapid.nofailfile=false"}
+	if failfile != "" {
+		args = []string{"-test.run", "TestSim", "-rapid.failfile=" + failfile}
+	}
+	cmd := exec.Command(filepath.Join(res.Dir, "sim.test"), args...)
+	cmd.Dir = filepath.Join(res.Dir, "run")
+	cmd.Env = append(os.Environ(), "CONVSIM_STATS="+stats)
+	var out bytes.Buffer
+	cmd.Stdout = &out
+	cmd.Stderr = &out
+	err := cmd.Run()
+	res.Output = out.String()
+	if b, rerr := os.ReadFile(stats); rerr == nil {
+		_ = json.Unmarshal(b, &res.Stats)
+	}
+	if err != nil {
+		if _, ok := err.(*exec.ExitError); ok {
+			res.Failed = true
+			if m := failFileRe.FindStringSubmatch(res.Output); m != nil {
+				p := m[1]
+				if !filepath.IsAbs(p) {
+					p = filepath.Join(res.Dir, "run", p)
+				}
+				res.FailFile = p
+			}
+			return nil
+		}
+		return &vnode.BuildError{Msg: "cannot run world binary: " + err.Error()}
+	}
+	return nil
+}
+
+// ---- check -------------------------------------------------------------------------------
+
+type convReplay struct {
+	Property string `json:"property"`
+	Class    string `json:"class"`
+	Msg      string `json:"msg"`
+	Key      string `json:"key"`
+	Engine   string `json:"engine"`
+	Seed     uint64 `json:"seed"`
+	World    uint64 `json:"world_seed"`
+	// Files of the world (inputs) for the reader; the replay regenerates them from the seed.
+	Files    map[string]string `json:"files"`
+	FailFile string            `json:"rapid_failfile"`
+	Output   string            `json:"output"`
+}
+
+var classRe = regexp.MustCompile(`(C0[47]) ([a-z0-9-]+):`)
+
+func classify(prop, output string) (string, string) {
+	if m := classRe.FindStringSubmatch(output); m != nil {
+		// message: the line containing the class
+		for _, l := range strings.Split(output, "\n") {
+			if strings.Contains(l, m[0]) {
+				return m[2], strings.TrimSpace(l)
+			}
+		}
+		return m[2], m[0]
+	}
+	if strings.Contains(output, "panic") {
+		return "panic", firstLines(output, 6)
+	}
+	return "harness-failure", firstLines(output, 12)
+}
+
+func firstLines(s string, n int) string {
+	ls := strings.Split(s, "\n")
+	if len(ls) > n {
+		ls = ls[:n]
+	}
+	return strings.Join(ls, "\n")
+}
+
+func splitmix(x uint64) uint64 {
+	x += 0x9e3779b97f4a7c15
+	x = (x ^ (x >> 30)) * 0xbf58476d1ce4e5b9
+	x = (x ^ (x >> 27)) * 0x94d049bb133111eb
+	return x ^ (x >> 31)
+}
+
+func worldSeed(seed uint64, prop string, i int) uint64 {
+	p := uint64(4)
+	if prop == "C07" {
+		p = 7
+	}
+	return splitmix(splitmix(seed^p*0x1234567) ^ uint64(i)*0x9E3779B1)
+}
+
+// Check runs the C04 or C07 check.
+func Check(id, tier string, seed uint64, repo, vd string) (*gensim.Outcome, error) {
+	nWorlds, checks := 24, 300
+	if id == "C07" {
+		checks = 60
+	}
+	if tier == "thorough" {
+		nWorlds, checks = 320, 2000
+		if id == "C07" {
+			checks = 300
+		}
+	}
+	e, err := NewEngine(repo)
+	if err != nil {
+		return nil, err
+	}
+	defer e.Close()
+	t0 := time.Now()
+	results := make([]*worldResult, nWorlds)
+	var wg sync.WaitGroup
+	sem := make(chan struct{}, 16)
+	var mu sync.Mutex
+	var ferr error
+	for i := 0; i < nWorlds; i++ {
+		wg.Add(1)
+		go func(i int) {
+			defer wg.Done()
+			sem <- struct{}{}
+			defer func() { <-sem }()
+			s := NewSpec(worldSeed(seed, id, i), id)
+			r, err := e.BuildWorld(s, i)
+			if err == nil && !r.Rejected {
+				err = e.RunWorld(r, checks, worldSeed(seed, id, i), "")
+			}
+			if err == nil && id == "C07" && !r.Rejected {
+				err = e.checkNoErrClause(r, i)
+			}
+			mu.Lock()
+			if err != nil && ferr == nil {
+				ferr = err
+			}
+			results[i] = r
+			mu.Unlock()
+			if r != nil && !r.Failed && r.NoErrViol == "" {
+				_ = os.RemoveAll(r.Dir)
+			}
+		}(i)
+	}
+	wg.Wait()
+	if ferr != nil {
+		return nil, ferr
+	}
+	out := &gensim.Outcome{Property: id, Level: map[string]string{"C04": "exploration", "C07": "fault_enumeration"}[id]}
+	counters := map[string]float64{}
+	distinct := map[string]float64{}
+	var samples []any
+	rejected, ran := 0, 0
+	var rejectSamples []string
+	formats := map[string]int{}
+	seenKey := map[string]bool{}
+	for i, r := range results {
+		if r == nil {
+			continue
+		}
+		if r.Rejected {
+			rejected++
+			if len(rejectSamples) < 3 {
+				rejectSamples = append(rejectSamples, firstLines(r.RejectMsg, 8))
+			}
+			continue
+		}
+		ran++
+		formats[r.Spec.Format+"/"+r.Spec.Wrap+fmt.Sprintf("/skipcopy=%v", r.Spec.SkipCopy)]++
+		if r.Stats != nil {
+			if c, ok := r.Stats["counters"].(map[string]any); ok {
+				for k, v := range c {
+					counters[k] += v.(float64)
+				}
+			}
+			if d, ok := r.Stats["distinct"].(map[string]any); ok {
+				for k, v := range d {
+					distinct[k] += v.(float64)
+				}
+			}
+			if s, ok := r.Stats["samples"].([]any); ok && len(samples) < 4 {
+				for _, x := range s {
+					if len(samples) < 4 {
+						samples = append(samples, map[string]any{"world": i, "format": r.Spec.Format, "wrap": r.Spec.Wrap, "case": x})
+					}
+				}
+			}
+		}
+		if len(samples) < 4 {
+			samples = append(samples, map[string]any{"world": i, "world_seed": r.Seed, "format": r.Spec.Format, "methods": methodNames(r.Spec), "types_source_head": firstLines(r.Spec.TypesSource(), 14)})
+		}
+		record := func(class, msg, output, failfile string) error {
+			key := id + ":" + class
+			if seenKey[key] {
+				return nil
+			}
+			seenKey[key] = true
+			rp := &convReplay{Property: id, Class: class, Msg: msg, Key: key, Engine: "convsim", Seed: seed, World: r.Seed, Output: trim(output, 6000),
+				Files: map[string]string{"w/types.go": r.Spec.TypesSource(), "w/conv.go": r.Spec.ConverterSource()}}
+			if failfile != "" {
+				if b, err := os.ReadFile(failfile); err == nil {
+					rp.FailFile = string(b)
+				}
+			}
+			_ = os.MkdirAll(filepath.Join(vd, "replays"), 0o755)
+			p := filepath.Join(vd, "replays", fmt.Sprintf("%s-%d-w%d-%s.json", id, seed, i, class))
+			b, _ := json.MarshalIndent(rp, "", " ")
+			if err := os.WriteFile(p, b, 0o644); err != nil {
+				return err
+			}
+			out.Found = append(out.Found, gensim.Found{V: gensim.Violation{Property: id, Class: class, Msg: msg, Key: key}})
+			out.Replays = append(out.Replays, p)
+			return nil
+		}
+		if r.Failed {
+			class, msg := classify(id, r.Output)
+			if class == "harness-failure" {
+				return nil, &vnode.BuildError{Msg: fmt.Sprintf("world %d (seed %d): harness failure:\n%s", i, r.Seed, trim(r.Output, 3000))}
+			}
+			if err := record(class, msg, r.Output, r.FailFile); err != nil {
+				return nil, err
+			}
+		}
+		if r.NoErrViol != "" {
+			if err := record("missing-error-result-accepted", r.NoErrViol, r.NoErrViol, ""); err != nil {
+				return nil, err
+			}
+		}
+		_ = os.RemoveAll(r.Dir)
+	}
+	if ran == 0 {
+		return nil, &vnode.BuildError{Msg: fmt.Sprintf("all %d worlds were rejected by goverter; first: %v", rejected, rejectSamples)}
+	}
+	pfx := strings.ToLower(id) + "."
+	execs := int64(counters[pfx+"executions"] + counters["c07.fault_runs"])
+	wall := time.Since(t0).Seconds()
+	cov := map[string]any{
+		"evaluations":         execs,
+		"distinct_nontrivial": int64(distinct[pfx+"nontrivial"]),
+		"worlds_run":          ran,
+		"worlds_rejected_by_goverter_or_not_compiling": rejected,
+		"rejection_samples":   rejectSamples,
+		"world_kinds":         formats,
+		"counters":            counters,
+		"distinct_sets":       distinct,
+		"executions_per_hour": int64(float64(execs) / wall * 3600),
+		"simulated_time":      "none: generated converters never read a clock or block; progress is measured in scheduler steps / custom-function calls",
+		"samples":             samples,
+		"real_vs_stub": map[string]any{
+			"real": []string{"unmodified goverter built from /repo's working tree generates the converters", "the emitted converter code (with range-over-map redirected to verifsim.Seq2 and, for C04, a yield before every statement)", "Go runtime, reflect"},
+			"stub": []string{"scheduler choosing among caller goroutines (exactly one runnable)", "map iteration order inside generated code", "user custom functions (harness-written, failing on command)", "the user's wrapErrorsUsing package (records Wrap calls)"},
+		},
+	}
+	if id == "C04" {
+		cov["rule"] = "per world (seeded type forest, converter in one of three output formats) and method: rapid draws task count 1-4, source mode (S one shared source / D shape-equal distinct sources), a source value with internal sharing, a map-order seed and a schedule (uniform per step or PCT-style priorities with drawn preemption points). Non-trivial = at least one context switch between different tasks; distinct = distinct (method, hash of (task,site) at context switches, value tape, mode, map-order seed), counted inside each world binary and summed over worlds"
+		cov["steps_scheduler"] = int64(counters["c04.steps"])
+		cov["context_switches"] = int64(counters["c04.context_switches"])
+		cov["distinct_interleavings"] = int64(distinct["c04.interleavings"])
+		if counters["c04.skipcopy_executions"] > 0 && counters["c04.skipcopy_executions_with_sharing"] == 0 {
+			return nil, &vnode.BuildError{Msg: "C04 positive control failed: skipCopySameType worlds ran but no execution exhibited sharing at an identical-type position (detector blind)"}
+		}
+	} else {
+		cov["rule"] = "per world and method: rapid draws a source value (unique ids at every fallible leaf, nothing shared) and a map-order seed; a fault-free dry run yields the reached custom-function calls; EVERY reached call is failed alone (exhaustive up to 64) and drawn sets of 2-5 are failed together. Non-trivial = a run in which a planned fault fired; distinct = distinct (method, fault set, location of the failing element, map-order seed), counted inside each world binary and summed"
+		cov["faults_fired"] = int64(counters["c07.faults_fired"])
+		cov["single_faults_enumerated"] = int64(counters["c07.single_faults"])
+		cov["multi_fault_sets"] = int64(counters["c07.multi_fault_sets"])
+		noerr := 0
+		for _, r := range results {
+			if r != nil && r.NoErrOK {
+				noerr++
+			}
+		}
+		cov["generation_time_clause_worlds_refused_as_required"] = noerr
+	}
+	out.Coverage = cov
+	out.Assume = []string{
+		"the rewriter's yields and Seq2 do not change the meaning of the emitted code (single-node replacements, validated by compiling and by the fault-free twin comparison)",
+		"values are bounded (<= ~60 nodes, depth <= 6); schedules and values are sampled, single faults are exhaustive per execution",
+	}
+	return out, nil
+}
+
+func methodNames(s *Spec) []string {
+	var out []string
+	for _, m := range s.methods(false) {
+		out = append(out, m.Name+"("+m.In+") "+m.Out)
+	}
+	sort.Strings(out)
+	return out
+}
+
+func trim(s string, n int) string {
+	if len(s) > n {
+		return s[:n] + "…"
+	}
+	return s
+}
+
+// checkNoErrClause: a declared method without error result whose conversion reaches a
+// fallible custom function must be refused at generation time.
+func (e *Engine) checkNoErrClause(r *worldResult, idx int) error {
+	s := r.Spec
+	dir := filepath.Join(e.Scratch, fmt.Sprintf("noerr-%d", idx))
+	defer os.RemoveAll(dir)
+	if err := materialise(dir, s); err != nil {
+		return &vnode.BuildError{Msg: err.Error()}
+	}
+	// drop the error result of the first declared method that reaches a leaf
+	conv := s.ConverterSource()
+	ms := s.methods(false)
+	target := ""
+	for _, m := range ms {
+		if s.reachesLeaf(m) {
+			target = m.Name
+			break
+		}
+	}
+	if target == "" {
+		return nil
+	}
+	re := regexp.MustCompile(`(\s` + target + `(?: func)?\(source [^)]*\)) \(([^,]+), error\)`)
+	loc := re.FindStringIndex(conv)
+	if loc == nil {
+		return nil
+	}
+	conv = conv[:loc[0]] + re.ReplaceAllString(conv[loc[0]:loc[1]], "$1 $2") + conv[loc[1]:]
+	if err := writeFile(filepath.Join(dir, "w", "conv.go"), conv); err != nil {
+		return &vnode.BuildError{Msg: err.Error()}
+	}
+	out, err := goRun(dir, nil, e.Goverter, "gen", "./w")
+	if err == nil {
+		r.NoErrViol = fmt.Sprintf("C07 missing-error-result-accepted: method %s was declared without an error result although a fallible custom function is reachable from it, and goverter generated code instead of refusing", target)
+		return nil
+	}
+	if ee, ok := err.(*exec.ExitError); ok && ee.ExitCode() == 1 {
+		r.NoErrOK = true
+		return nil
+	}
+	return &vnode.BuildError{Msg: "goverter run (noerr clause): " + err.Error() + "\n" + out}
+}
+
+// reachesLeaf: does the method's source type reach a fallible leaf?
+func (s *Spec) reachesLeaf(m methodSpec) bool {
+	id := 0
+	fmt.Sscanf(strings.TrimLeft(m.In, "[]*mapstring"), "S%d", &id)
+	n, ok := s.Structs[id]
+	if !ok {
+		return false
+	}
+	seen := map[int]bool{}
+	var walk func(n *node) bool
+	walk = func(n *node) bool {
+		switch n.Kind {
+		case "leaf":
+			return true
+		case "struct", "ustruct":
+			if n.Kind == "struct" {
+				if seen[n.ID] {
+					return false
+				}
+				seen[n.ID] = true
+			}
+			for _, f := range n.Fields {
+				if walk(f.N) {
+					return true
+				}
+			}
+		case "ref":
+			return walk(s.Structs[n.ID])
+		case "ptr", "slice":
+			return walk(n.Elem)
+		case "map":
+			return walk(n.Key) || walk(n.Elem)
+		}
+		return false
+	}
+	return walk(n)
+}
+
+// Replay re-runs a recorded convsim violation: the world is regenerated from its seed, the
+// current /repo tree generates the converters again, and rapid replays the recorded
+// fail file (the minimised value, schedule and fault set).
+func Replay(path, repo, vd string) (int, error) {
+	b, err := os.ReadFile(path)
+	if err != nil {
+		return 2, err
+	}
+	var rp convReplay
+	if err := json.Unmarshal(b, &rp); err != nil {
+		return 2, err
+	}
+	e, err := NewEngine(repo)
+	if err != nil {
+		return 2, err
+	}
+	defer e.Close()
+	s := NewSpec(rp.World, rp.Property)
+	r, err := e.BuildWorld(s, 0)
+	if err != nil {
+		return 2, err
+	}
+	if r.Rejected {
+		fmt.Printf("replay: goverter now refuses this world (no violation reproduced):\n%s\n", firstLines(r.RejectMsg, 10))
+		return 0, nil
+	}
+	if rp.Class == "missing-error-result-accepted" {
+		if err := e.checkNoErrClause(r, 0); err != nil {
+			return 2, err
+		}
+		if r.NoErrViol != "" {
+			fmt.Printf("VIOLATION property=%s replay=%s\n  %s\n", rp.Property, path, r.NoErrViol)
+			return 1, nil
+		}
+		fmt.Println("replay: no violation on the current tree")
+		return 0, nil
+	}
+	ff := ""
+	if rp.FailFile != "" {
+		ff = filepath.Join(r.Dir, "replay.fail")
+		if err := os.WriteFile(ff, []byte(rp.FailFile), 0o644); err != nil {
+			return 2, err
+		}
+	}
+	if ff == "" {
+		if err := e.RunWorld(r, 300, rp.World, ""); err != nil {
+			return 2, err
+		}
+	} else if err := e.RunWorld(r, 0, 0, ff); err != nil {
+		return 2, err
+	}
+	if r.Failed {
+		class, msg := classify(rp.Property, r.Output)
+		fmt.Printf("VIOLATION property=%s replay=%s\n  class=%s\n  %s\n", rp.Property, path, class, msg)
+		return 1, nil
+	}
+	fmt.Printf("replay of %s: no violation on the current tree (recorded: %s)\n", path, rp.Class)
+	return 0, nil
+}
